@@ -119,6 +119,11 @@ var g04TagPrefixes = []string{"", "abc ", "x>", "x >", "x'>", "x\">", "x`>", "'>
 	// polyglot openers: the unquoted reading is swallowed by an unterminated comment,
 	// <% block or CDATA section, the quoted readings break out behind the quote
 	"<!--\">", "<!--'>", "<!--`>", "<!--x\" >", "<%\">", "<%'>", "<%x`>", "<![CDATA[\">", "<![CDATA['>", "<![CDATA[x`>", "<!--x' y\">",
+	// complete blocks whose body holds one quote of each kind (every quoted reading ends up in
+	// a value that never closes: only the element-content reading sees the vector) and ends in
+	// bytes of its own terminator
+	"<%' a=\" b=' 100%%>", "<%' a=\" b=' %>", "<%' a=\" b=' x%%%>", "<!--' a=\" b=' --->", "<!--' a=\" b=' x---->", "<!--' a=\" b=' -!--!>", "<![CDATA[' a=\" b=' ]]]>", "<![CDATA[' a=\" b=' ]]]]>", "<?' a=\" b=' ??>", "<!' a=\" b=' -->", "<%' a=\" b=' %-%>", "<!--' a=\" b=' ->-->", "<![CDATA[' a=\" b=' ]>]]>",
+	"<%x%%>", "<%%%>", "<!--x--->", "<!------>", "<![CDATA[x]]]>", "<%@ x=\"y\" %%>",
 	// the same without any quote: only the unquoted reading gets past the opener
 	"<!-->", "x <!-- y >", "<%>", "<![CDATA[>", "<!--x>", "<% x >", "<!--->", "<!-- - >", "a<![CDATA[ b > ", "<%-- x >"}
 
